@@ -4,6 +4,7 @@
 -/
 import SchedVerif.Driver.Parse
 import SchedVerif.Spec.Occ
+import SchedVerif.Spec.Select
 namespace SV.Drv
 open SV
 
@@ -19,6 +20,9 @@ def timingP : P Timing := do
 
 def okB (b : Bool) : String := if b then "ok" else "fail"
 
+def keyPrio : P (Nat × Rat) := do let k ← nat; let p ← rat; pure (k, p)
+def keyDueW : P (Nat × Int × Rat) := do let k ← nat; let d ← int; let w ← rat; pure (k, d, w)
+
 def specP : P String := do
   let name ← tok
   match name with
@@ -30,6 +34,15 @@ def specP : P String := do
       -- one execution moved the due instant by exactly one period
       let tm ← timingP; let prev ← int; let new ← int
       pure (okB (new == prev + tm.period))
+  | "c05" => do
+      let me ← nat; let l ← listOf keyPrio; let inv ← listOf nat
+      pure (okB (c05SpecB me l inv))
+  | "c04" => do
+      let clock ← int; let jobs ← listOf keyDueW; let inv ← listOf nat; let ret ← nat
+      pure (okB (c04SpecB clock jobs inv ret))
+  | "force" => do
+      let reg ← listOf nat; let inv ← listOf nat; let ret ← nat
+      pure (okB (forceSpecB reg inv ret))
   | "cadence" => do
       -- the k-th execution (k = 1, 2, …) of a cyclic job belongs to s + k·T (delay) / s + (k-1)·T (no delay)
       let delay ← bool; let sv ← int; let T ← int; let k ← int; let due ← int
@@ -50,6 +63,24 @@ def specP : P String := do
       let a ← int; let b ← int
       pure (okB (a ≤ b))
   | _ => failure
+
+/-- `select <maxExec> <prioKind> <clock> <n> (<key> <due> <wnum> <wden>)*` : the model's batch for
+    a registry given in iteration order with observed due instants and weights -/
+def selectP : P String := do
+  let me ← nat; let pk ← nat; let clock ← int; let jobs ← listOf keyDueW
+  let kind : PrioKind := if pk == 0 then .linear else .constant
+  let l := jobs.map (fun j => (j.1, prioOf kind (clock - j.2.1) j.2.2))
+  pure ("B " ++ joinNat ((selectBatch me l).map (·.1))).trimAsciiEnd.toString
+
+/-- `selectp <maxExec> <n> (<key> <pnum> <pden>)*` : the same for an explicit priority table -/
+def selectpP : P String := do
+  let me ← nat; let l ← listOf keyPrio
+  pure ("B " ++ joinNat ((selectBatch me l).map (·.1))).trimAsciiEnd.toString
+
+def selectCmd (p : P String) (toks : List String) : String :=
+  match runP p toks with
+  | some s => s
+  | none => "bad-op"
 
 def specCmd (toks : List String) : String :=
   match runP specP toks with
